@@ -92,7 +92,7 @@ fn one<C: Suite>(ctx: &mut Ctx, g: u64, scheme: Scheme, len: usize, content: Con
     let n = C::NAME;
     let sn = scheme.name();
     let msg = gen::message(len, content, &mut rng);
-    let k = gen::random_scalar(&mut rng);
+    let k = gen::key_for(g, &mut rng); // every fourth case: an edge scalar
     let sk = sk_from_rs::<C>(&k);
     let pk = sk.public_key();
     let kb = k.to_be_bytes();
